@@ -107,8 +107,49 @@ pub fn gen_moving_directive_behind_static_prefix(t: &mut Tape) -> (Program, Prog
     (Program { isa, items }, info)
 }
 
+/// v3 directed template: the WIDTH of a constant (not its number) depends on a label behind the instruction that
+/// reads it through a chain of forward-declared constants, and the instruction's size is that width:
+///     ldv c2 / c2 = c1 / c1 = end > K ? 0x00 : 0x0000 / end:          with  ldv {v} => 0x10 @ v
+pub fn gen_width_carrying_constant(t: &mut Tape) -> (Program, ProgInfo) {
+    let mut isa = IsaGen { size_static: false, asserts: true }.gen(t);
+    let lit = crate::gen::expr::lit_of;
+    isa.blocks[0].rules.push(Rule {
+        mnemonic: "ldv".into(),
+        ops: vec![PatOp { wrap: Wrap::None, op: POp::Param { name: "p0".into(), ty: PType::Untyped } }],
+        prod: crate::gen::isa::concat_all(vec![crate::gen::isa::sized_lit(0x10, 8), E::Var("p0".into())]),
+        size: 16,
+    });
+    let mut items: Vec<Item> = Vec::new();
+    let npre = t.draw(3) as u64;
+    for k in 0..npre {
+        items.push(Item::Data { width: Some(8), elems: vec![lit(k + 1)] });
+    }
+    let links = t.urange(1, 3);
+    items.push(Item::Instr(Instr { mnemonic: "ldv".into(), ops: vec![InsOp { wrap: Wrap::None, op: IOp::Word(format!("wc{}", links)) }] }));
+    for k in (2..=links).rev() {
+        items.push(Item::Const { dots: 0, name: format!("wc{}", k), e: E::Var(format!("wc{}", k - 1)), noemit: false });
+    }
+    // end = npre + 2 with the narrow value, npre + 3 with the wide one; the threshold keeps exactly one of them consistent
+    let narrow = crate::gen::isa::sized_lit(0, 8);
+    let wide = crate::gen::isa::sized_lit(0, 16);
+    let (a, b) = if t.flip() { (narrow.clone(), wide.clone()) } else { (wide, narrow) };
+    let k = npre + 1 + t.draw(3) as u64;
+    items.push(Item::Const { dots: 0, name: "wc1".into(), e: E::Tern(Box::new(E::Bin(BinOp::Gt, Box::new(E::Var("wend".into())), Box::new(lit(k)))), Box::new(a), Box::new(b)), noemit: false });
+    items.push(Item::Label { dots: 0, name: "wend".into() });
+    items.push(Item::Data { width: Some(8), elems: vec![lit(0xbb)] });
+    let info = ProgInfo { n_instr: 1, symbol_operands: 1, forward_refs: true, ..Default::default() };
+    (Program { isa, items }, info)
+}
+
 pub fn gen_cascade(t: &mut Tape, max_items: usize) -> (Program, ProgInfo) {
-    if crate::engine::gen_version() >= 2 && t.chance(1, 16) {
+    if crate::engine::gen_version() >= 3 && t.chance(1, 16) {
+        return match t.draw(3) {
+            0 => gen_lagging_constant(t),
+            1 => gen_moving_directive_behind_static_prefix(t),
+            _ => gen_width_carrying_constant(t),
+        };
+    }
+    if crate::engine::gen_version() == 2 && t.chance(1, 16) {
         return if t.flip() { gen_lagging_constant(t) } else { gen_moving_directive_behind_static_prefix(t) };
     }
     let isa = IsaGen { size_static: false, asserts: true }.gen(t);
